@@ -524,7 +524,7 @@ fn check_spec(ctx: &Ctx, mode: Mode, g: &RefGrammar) -> Stats {
 
 pub fn spec_space(ctx: &Ctx) -> (Vec<RefGrammar>, Vec<(String, usize)>, usize) {
     let lists = if ctx.quick() {
-        universe_list(&[(2, 2, 2, 2, 5)])
+        universe_list(&[(2, 2, 2, 2, 5), (2, 2, 2, 3, 4), (2, 3, 2, 2, 5), (3, 2, 2, 2, 4)])
     } else {
         universe_list(&[(2, 2, 2, 2, 6), (2, 3, 2, 2, 5), (3, 2, 2, 2, 5), (2, 2, 3, 2, 5), (2, 2, 2, 3, 6)])
     };
